@@ -211,7 +211,7 @@ def run_cf_in(spec, res, d, h):
             tovals = np.append(vals - dt / 2, vals[-1] + dt / 2)
     if spec.get('disk'):
         # the file saved and opened again from disk
-        g = harness.to_disk(f, d, h)
+        g = harness.to_disk(f, d, h, res=res)
         if g is not None:
             f = g
     facets = ['cf', 'unit:' + spec['unit'], 'cal:%s' % cal,
@@ -352,7 +352,7 @@ def run_ioapi_in(spec, res, d, h):
     if spec.get('disk') and spec['mode'] == 'tflag' and \
             not spec['drop_tflag']:
         # the IOAPI file saved and opened again from disk
-        g = harness.to_disk(f, d, h, fmt='ioapi')
+        g = harness.to_disk(f, d, h, res=res, fmt='ioapi')
         if g is not None:
             f = g
             res.facet('ioapi-source:disk')
